@@ -48,7 +48,7 @@ typedef struct run_ctx {
 extern run_ctx RC;
 
 /* ---- result record (child -> zygote) ---- */
-enum { V_OK = 0, V_VIOLATION = 1, V_EXPECT_CRASH = 2, V_SKIP = 3 };
+enum { V_OK = 0, V_VIOLATION = 1, V_EXPECT_CRASH = 2, V_SKIP = 3, V_PENDING = 4 };
 #define NCOUNTERS 24
 typedef struct result {
 	int verdict;
@@ -92,6 +92,8 @@ void h_done(void) __attribute__((noreturn));
 void h_sample(const char *fmt, ...) __attribute__((format(printf, 1, 2)));  // append to the program rendering
 // announce that the next action must crash the process (expected-crash run)
 void h_expect_crash(const char *what);
+// send a preliminary record (program rendering) so that a later crash still has its program
+void h_announce(void);
 
 /* ---- phases / liveness ---- */
 // wait for the given client threads, at most budget_ns of simulated time; then switch to
